@@ -5,6 +5,7 @@
 package c15
 
 import (
+	"context"
 	"fmt"
 	"math/rand"
 	"sort"
@@ -223,6 +224,27 @@ func clientCase(sc clScenario) (term, text string, tags []string, err error) {
 		if extra := cs.newRequests(); len(extra) > 0 {
 			reqs = append(reqs, "GetClusterObjs sent "+strings.Join(extra, ","))
 		}
+		// the other reader of stored inventories: ListClusterInventoryObjs (name -> identifiers)
+		var listed map[string]object.ObjMetadataSet
+		var lerr error
+		if guard(func() { listed, lerr = cs.client.ListClusterInventoryObjs(context.TODO()) }) {
+			lerr = fmt.Errorf("panic")
+		}
+		if extra := cs.newRequests(); len(extra) > 0 {
+			reqs = append(reqs, "ListClusterInventoryObjs sent "+strings.Join(extra, ","))
+		}
+		listT, listX := "(@Err (option (list oid)))", "ERR"
+		if lerr == nil {
+			entry, has := listed[clInvName]
+			switch {
+			case !has && len(listed) == 0:
+				listT, listX = "(Ok (@None (list oid)))", "none"
+			case has && len(listed) == 1:
+				listT, listX = emit.App("Ok", emit.App("Some", oids(entry))), shorts(entry)
+			default:
+				listX = fmt.Sprintf("unexpected entries %d", len(listed))
+			}
+		}
 		tag := "client:merge"
 		if op.kind == clReplace {
 			tag = "client:replace"
@@ -252,9 +274,9 @@ func clientCase(sc clScenario) (term, text string, tags []string, err error) {
 			rt[i] = reqTerm(r)
 		}
 		steps = append(steps, emit.App("mkCStep", opT, dryTerm(op.dry), oids(op.objs),
-			emit.Bool(opErr != nil), emit.List(rt), optKeys(pk, keys), oids(prune), resOids(got, gerr)))
-		txt = append(txt, fmt.Sprintf("%s[dry=%s]%s=%s reqs=%q stored=%s prune=%s next-run-loads=%s",
-			opX, dryText(op.dry), shorts(op.objs), errS(opErr), reqs, keysText(pk, keys), shorts(prune), getText(got, gerr)))
+			emit.Bool(opErr != nil), emit.List(rt), optKeys(pk, keys), oids(prune), resOids(got, gerr), listT))
+		txt = append(txt, fmt.Sprintf("%s[dry=%s]%s=%s reqs=%q stored=%s prune=%s next-run-loads=%s listed=%s",
+			opX, dryText(op.dry), shorts(op.objs), errS(opErr), reqs, keysText(pk, keys), shorts(prune), getText(got, gerr), listX))
 	}
 	term = emit.App("CClient", polT, initT, optKeys(p0, k0), resOids(g0, g0err), emit.List(steps))
 	text = fmt.Sprintf("CLIENT policy=%s cluster-inventory=%s stored=%s loads=%s ; %s", polX, initX, keysText(p0, k0), getText(g0, g0err), strings.Join(txt, " ; "))
